@@ -118,6 +118,8 @@ class QueryPlanner:
         idx = '.'.join(idx_ar).lower()
         info = self.predictor_info.get(idx)
         if info is not None:
+            # do not write into the caller's metadata: it is shared between planners (and threads)
+            info = dict(info)
             info['version'] = version
             info['name'] = name
         return info
